@@ -970,6 +970,13 @@ def chain_family():
        "b = Basket()\nholder = Basket.Item()\norigin = holder.ia0\nnested = b.ia0\ntop = b.ia1\n"
        "def mk():\n  return Basket.Item().ia0\ndef mk2():\n  return Outer2.Basket().mk()\n")
   out.append((dep, a))
+  # (e) several module-level names, function results and attributes with the SAME container type: the downstream
+  # module mutates one of them (chain_task's second pass) and reads the others
+  a = ("import dep\nprimes = [2, 3, 5]\nevens = [2, 4]\nratio = {'a': 1.5}\nscale = {'b': 2.5}\nseen = {1}\nfresh = {2}\n"
+       "def odds():\n  return [1, 3]\ndef table():\n  return {'k': 0.5}\n"
+       "class Cfg:\n  names = [7]\n  def __init__(self):\n    self.ia0 = [1]\n    self.ia1 = {'z': 1.5}\n"
+       "cfg = Cfg()\npair = ([1], {'q': 2.5})\n")
+  out.append((dep, a))
   return out
 
 
@@ -1046,6 +1053,44 @@ def chain_task(args):
         out["reads"] += 1
         if u != w:
           out["bad"].append({"transport": tr, "expr": e, "upstream_infers": u, "downstream_sees": w})
+    # the same reads after the downstream module has *mutated* one imported container of each kind: every other name
+    # must still have the type A's analysis inferred (imported values are not shared between names)
+    muts, mutated = [], set()
+    for kind, stmt in (("list[", "%s.append(Mk_())"), ("dict[", "%s['zz_'] = Mk_()"), ("set[", "%s.add(Mk_())")):
+      for j, e in enumerate(exprs):
+        u = norm_reveal(up.get(n0 + 1 + j))
+        if u and u.startswith(kind) and re.match(r"a\.\w+$", e):
+          muts.append(stmt % e)
+          mutated.add(e)
+          break
+    if muts:
+      head = ["import a", "class Mk_: pass"] + muts
+      bsrc = "\n".join(head) + "\n" + "".join("reveal_type(%s)\n" % e for e in exprs)
+      for tr in ("path", "pickle"):
+        if tr == "path":
+          opts = config.Options.create(python_version=PYVER, module_name="b", pythonpath=d)
+        else:
+          opts = config.Options.create(python_version=PYVER, module_name="b", pythonpath="", use_pickled_files=True,
+                                       imports_map_items=[("a", os.path.join(d, "a.pickled")),
+                                                          ("dep", os.path.join(d, "dep.pickled"))])
+        try:
+          dn, _ = _reveal(bsrc, opts)
+        except Exception as e:  # pylint: disable=broad-except
+          out["bad"].append({"transport": tr + "+mutation", "what": "downstream analysis raises", "exception": repr(e)[:300]})
+          continue
+        for j, e in enumerate(exprs):
+          if e in mutated:
+            continue
+          u = norm_reveal(up.get(n0 + 1 + j))
+          w = dn.get(len(head) + 1 + j)
+          w = norm_reveal(None if w is None else re.sub(r"\ba\.", "", w))
+          if u is None or (u == "Any" and re.match(r"a\.[\w.]+\.ia\d+$", e)):
+            continue
+          out["reads"] += 1
+          out["reads_after_mutation"] = out.get("reads_after_mutation", 0) + 1
+          if u != w:
+            out["bad"].append({"transport": tr + "+mutation", "expr": e, "upstream_infers": u, "downstream_sees": w,
+                               "downstream_mutated_first": muts})
   except Exception as e:  # pylint: disable=broad-except
     out["exception"] = repr(e)
     out["trace"] = traceback.format_exc()[-1500:]
